@@ -122,6 +122,20 @@ func build(st Stage, scratch string) (string, error) {
 		// overlay: inject in-package _test.go files into a /repo package.
 		ov := map[string]map[string]string{"Replace": {}}
 		for target, src := range st.OverlayFiles {
+			if strings.HasPrefix(src, "gen:") {
+				// "gen:<file under harness>:<package name>": a harness library file injected
+				// with its package clause rewritten (the /repo module cannot import the harness)
+				parts := strings.SplitN(src[4:], ":", 2)
+				b, err := ioutil.ReadFile(filepath.Join(harnessDir, parts[0]))
+				if err != nil {
+					return "", err
+				}
+				txt := regexp.MustCompile(`(?m)^package \w+`).ReplaceAllString(string(b), "package "+parts[1])
+				gf := filepath.Join(scratch, "gen-"+st.Name+"-"+filepath.Base(target))
+				ioutil.WriteFile(gf, []byte(txt), 0644)
+				ov["Replace"][filepath.Join(repoDir, target)] = gf
+				continue
+			}
 			ov["Replace"][filepath.Join(repoDir, target)] = filepath.Join(harnessDir, "overlay", src)
 		}
 		ob, _ := json.Marshal(ov)
